@@ -139,22 +139,13 @@ def SSt.finishEvent (s : SSt) (tag clk : Nat) : SSt :=
 
 def stepLine (s : SSt) (pos : Nat) (ln : Line) : SSt :=
   let s := { s with clockAt := s.clock :: s.clockAt }
-  -- hooks that fell due run before anything else happens (only the events they return are created in between)
-  let s := match ln with
-    | .hookRun _ _ | .created => s
-    | _ => if s.due.isEmpty then s else { s with err := s.err <|> some "process/hook/not-run-at-finish", due := [] }
+  -- (the hook clauses are `hookMonitor`'s)
   match ln with
-  | .hookAdd tag k => { s with hooks := s.hooks ++ [(tag, k)] }
-  | .hookRun clk k =>
-    match s.due with
-    | [] => { s with err := s.err <|> some "process/hook/ran-without-being-due" }
-    | k' :: rest =>
-      if k' != k then { s with err := s.err <|> some "process/hook/ran-out-of-order", due := rest }
-      else if clk != s.dueClock then { s with err := s.err <|> some "process/hook/ran-at-wrong-instant", due := rest }
-      else { s with due := rest }
+  | .hookAdd _ _ => s
+  | .hookRun _ _ => s
   | .created => s
-  | .start clk tag => { s with clock := clk, pidTag := (s.nProc, tag) :: s.pidTag, nProc := s.nProc + 1 }
-  | .skipped clk tag => { s with clock := clk }.finishEvent tag clk
+  | .start clk _ => { s with clock := clk }
+  | .skipped clk _ => { s with clock := clk }
   | .fresh f => s.bind f .plain pos
   | .anyOf c gs =>
     let (s1, ids) := gs.foldl (fun (acc : SSt × List Nat) g => let (a, o) := acc.1.ensure g pos; (a, acc.2 ++ [o])) (s, [])
@@ -178,28 +169,16 @@ def stepLine (s : SSt) (pos : Nat) (ln : Line) : SSt :=
               daemonWaits := if dm then pid :: s1.daemonWaits else s1.daemonWaits }
   | .ydelay tag pid time => { s with delays := (pid, tag, time) :: s.delays }
   | .deliv clk => { s with clock := clk }
-  | .finish clk pid =>
-    let s := { s with clock := clk }
-    match s.pidTag.find? (·.1 == pid) with
-    | some (_, tag) => s.finishEvent tag clk
-    | none => s
+  | .finish clk _ => { s with clock := clk }
   | .crash => { s with crashes := true }
   | .endL _ e => { s with endT := e }
   | .other => s
   | .resume clk pid val tag =>
     let s := { s with clock := clk }
-    if tag != 0 then
-      match s.delays.find? (fun d => d.1 == pid && d.2.1 == tag) with
-      | none => { s with err := s.err <|> some "process/resumed-without-pending-delay" }
-      | some d =>
-        let s' := { s with delays := s.delays.filter (fun x => !(x.1 == pid && x.2.1 == tag)) }
-        if d.2.2 != clk then { s' with err := s.err <|> some "process/delay-resume-at-wrong-time" }
-        else if val.startsWith "raised:" then { s' with err := s.err <|> some "process/delay-resume-raised" }
-        else if val != "none" then { s' with err := s.err <|> some "process/delay-resume-with-value" }
-        else s'
+    if tag != 0 then s      -- resumed by a delay continuation: the delay clauses are `delayMonitor`'s
     else
       match s.waits.find? (fun w => w.1 == pid) with
-      | none => { s with err := s.err <|> some "future/resumed-without-wait" }
+      | none => s           -- no wait to resume from: `waitMonitor` reports it
       | some w =>
         let s' := { s with waits := s.waits.filter (fun x => x.1 != pid) }
         match (s.objs[w.2.1]?).bind (·.res) with
@@ -214,13 +193,115 @@ def stepLine (s : SSt) (pos : Nat) (ln : Line) : SSt :=
           else if dueClock != clk then { s' with err := s.err <|> some "future/resumed-at-wrong-instant" }
           else s'
 
-def judge (body : List String) : Option String :=
-  let lines := body.map parseLine
+/-! ### the delay clauses as a monitor of their own
+
+`process/resumed-without-pending-delay`, `process/delay-resume-at-wrong-time`, `process/delay-resume-raised`
+and `process/delay-resume-with-value` only depend on the `y` lines and the tagged `R` lines of the trace; `delayMonitor` judges them (`stepLine` does not).
+(The theorems of `HappyProofs/C02/JudgeDelay.lean` speak about it.) -/
+
+structure DSt where
+  delays : List (Nat × Nat × Nat) := []   -- (pid, tag, due time) not yet resumed
+  err : Option String := none
+
+def delayStep (s : DSt) : Line → DSt
+  | .ydelay tag pid time => { s with delays := (pid, tag, time) :: s.delays }
+  | .resume clk pid val tag =>
+    if tag != 0 then
+      match s.delays.find? (fun d => d.1 == pid && d.2.1 == tag) with
+      | none => { s with err := s.err <|> some "process/resumed-without-pending-delay" }
+      | some d =>
+        let s' := { s with delays := s.delays.filter (fun x => !(x.1 == pid && x.2.1 == tag)) }
+        if d.2.2 != clk then { s' with err := s.err <|> some "process/delay-resume-at-wrong-time" }
+        else if val.startsWith "raised:" then { s' with err := s.err <|> some "process/delay-resume-raised" }
+        else if val != "none" then { s' with err := s.err <|> some "process/delay-resume-with-value" }
+        else s'
+    else s
+  | _ => s
+
+def delayMonitor (ls : List Line) : Option String := (ls.foldl delayStep {}).err
+
+/-! ### "resumed by a future only after waiting on one", as a monitor of its own
+
+`future/resumed-without-wait` only depends on the `w` lines and the untagged `R` lines (`stepLine`
+keeps one entry per waiting process and drops all entries of a process when it is resumed). -/
+
+structure WSt where
+  waits : List Nat := []                  -- pids that yielded a future and have not been resumed since
+  err : Option String := none
+
+def waitStep (s : WSt) : Line → WSt
+  | .wait pid _ _ => { s with waits := pid :: s.waits }
+  | .resume _ pid _ tag =>
+    if tag != 0 then s
+    else if s.waits.contains pid then { s with waits := s.waits.filter (· != pid) }
+    else { s with err := s.err <|> some "future/resumed-without-wait" }
+  | _ => s
+
+def waitMonitor (ls : List Line) : Option String := (ls.foldl waitStep {}).err
+
+/-! ### the hook clauses as a monitor of their own
+
+"Completion hooks: when the processing of an event finishes (plain handler returned / no handler / its
+generator process finished) every hook attached to the event up to that moment runs exactly once, in
+attachment order, at that instant, and hooks run at no other time."  Reads `h` (attach), `H` (run), `S`
+(handler entered: allocates the next process id), `K` (no handler: finished at once), `F` (process
+finished) and `c` lines; any other line while hooks are due means they did not run at the finish. -/
+
+structure HSt where
+  hooks : List (Nat × Nat) := []       -- (event tag, hook) attached and not yet due, in attachment order
+  pidTag : List (Nat × Nat) := []      -- process id ↦ tag of the event that started it
+  nProc : Nat := 0
+  due : List Nat := []                 -- hooks that must run right now (the event just finished), in order
+  dueClock : Nat := 0
+  err : Option String := none
+
+/-- the processing of event `tag` is over at clock `clk`: its hooks fall due -/
+def HSt.finishEvent (s : HSt) (tag clk : Nat) : HSt :=
+  { s with due := (s.hooks.filter (·.1 == tag)).map (·.2), dueClock := clk,
+           hooks := s.hooks.filter (·.1 != tag) }
+
+def hookStep (s : HSt) (ln : Line) : HSt :=
+  -- hooks that fell due run before anything else happens (only the events they return are created in between)
+  let s := match ln with
+    | .hookRun _ _ | .created => s
+    | _ => if s.due.isEmpty then s else { s with err := s.err <|> some "process/hook/not-run-at-finish", due := [] }
+  match ln with
+  | .hookAdd tag k => { s with hooks := s.hooks ++ [(tag, k)] }
+  | .hookRun clk k =>
+    match s.due with
+    | [] => { s with err := s.err <|> some "process/hook/ran-without-being-due" }
+    | k' :: rest =>
+      if k' != k then { s with err := s.err <|> some "process/hook/ran-out-of-order", due := rest }
+      else if clk != s.dueClock then { s with err := s.err <|> some "process/hook/ran-at-wrong-instant", due := rest }
+      else { s with due := rest }
+  | .start _ tag => { s with pidTag := (s.nProc, tag) :: s.pidTag, nProc := s.nProc + 1 }
+  | .skipped clk tag => s.finishEvent tag clk
+  | .finish clk pid =>
+    match s.pidTag.find? (·.1 == pid) with
+    | some (_, tag) => s.finishEvent tag clk
+    | none => s
+  | _ => s
+
+def hookMonitor (ls : List Line) : Option String :=
+  let s := ls.foldl hookStep {}
+  match s.err with
+  | some e => some e
+  | none => if !s.due.isEmpty then some "process/hook/not-run-at-finish" else none
+
+def judgeLines (lines : List Line) : Option String :=
+  match hookMonitor lines with
+  | some e => some e
+  | none =>
+  match delayMonitor lines with
+  | some e => some e
+  | none =>
+  match waitMonitor lines with
+  | some e => some e
+  | none =>
   let s := (enum lines).foldl (fun st p => stepLine st p.1 p.2) ({} : SSt)
   match s.err with
   | some e => some e
   | none =>
-    if !s.due.isEmpty then some "process/hook/not-run-at-finish" else
     -- at the end: every wait whose future got resolved (within the horizon, nobody crashed) must
     -- have been resumed
     let clocks := s.clockAt.reverse
@@ -233,6 +314,8 @@ def judge (body : List String) : Option String :=
                                    | none => false) with
     | some _ => some "future/resolved-but-never-resumed"
     | none => none
+
+def judge (body : List String) : Option String := judgeLines (body.map parseLine)
 
 def judgeBlock (body : List String) : List String :=
   match judge body with
